@@ -536,6 +536,7 @@ func (g *G) genInst(c *cur) {
 			return
 		}
 		in := &am.Inst{Op: "alloca", ElemT: t}
+		in.InAlloca = g.chance("inalloca", 1, 8) // a stack slot for an inalloca argument; the verifier asks nothing of an unused one
 		if g.chance("allocaalign", 1, 2) {
 			in.Align = 1 << uint(g.intn("alignlog", 7))
 		}
@@ -1004,7 +1005,7 @@ done:
 func (g *G) genCallCommon(c *cur, in *am.Inst) bool {
 	if g.chance("asmcall", 1, 12) && !g.off("inline-asm") {
 		ft := am.Fn(am.TVoid, false)
-		a := &am.InlineAsm{T: ft, Asm: g.pick("asmtext", []string{"", "nop", "mov $0, $0 # \"q\""}), SideEffect: g.chance("se", 1, 2), AlignStack: g.chance("as", 1, 4), Intel: g.chance("intel", 1, 4)}
+		a := &am.InlineAsm{T: ft, Asm: g.pick("asmtext", []string{"", "nop", "mov $0, $0 # \"q\""}), SideEffect: g.chance("se", 1, 2), AlignStack: g.chance("as", 1, 4), Intel: g.chance("intel", 1, 4), Unwind: g.chance("asmunwind", 1, 4)}
 		in.Callee = &am.Value{K: am.VInlineAsm, Asm: a}
 		in.FnT = ft
 		in.T = am.TVoid
